@@ -11,6 +11,10 @@ Vocabulary (defined in Model / Spec / Proofs):
   * `Ref.canon` — forgets the difference between an absent and a present-but-empty query / fragment
     (a `URL` object cannot represent it).  Paths, schemes and authorities are compared exactly:
     the statement's "an empty path under an authority is the same as '/'" is not even needed.
+  * `QPairs`, `parseQsl`, `queryText`, `omdUpdate` — the items of `query_params` (key, value-or-None, in
+    order, repeated keys included), `parse_qsl`, `QueryParamDict.to_text`, `OrderedMultiDict.update`;
+    `CanonQuery q` / `CanonQ o` — query texts that parse and print back verbatim (`&`-separated non-empty
+    pairs, no `;`): any keys, values, repetitions and order;
   * `AbsBase b` — the base has a host, a rooted or empty path with slash-free segments, lower-case
     scheme and host (what `URL(text)` gives for `scheme://host[/path]`).
 -/
@@ -52,14 +56,17 @@ theorem rds_unroll (k : Nat) (inp out : Str) (h : inp ≠ []) : rds (k+1) inp ou
     with any mix of '.', '..' and empty segments, query-only, fragment-only or empty; `r.path`, `r.query`,
     `r.fragment` are arbitrary texts), against any base with a host.
 
+    `hcq`: the reference's query text is one that `parse_qsl`/`to_text` reproduce (`query_text_roundtrip`);
+    keys may repeat, lack a value or have an empty one, in any order.  The base's `query_params` are arbitrary.
+
     Full statement wanted: the same without `hq`.  It is FALSE for the code (`navigate_empty_query_defect`):
     `hq` excludes exactly the region "empty path, present-but-empty query, base has a query" (`?`, `?#s`),
     where boltons keeps the base query (known finding C07-empty-query).
     `hdf`: when the reference path is empty the RFC keeps the base path verbatim while the code
     normalises it, so the base path must then be dot-free (the statement demands a dot-free result). -/
 theorem navigate_eq_rfc_partial (b : URL) (r : Ref) (hb : AbsBase b) (hr : RelRef r)
-    (hdf : r.path ≠ [] ∨ DotFree b.parts)
-    (hq : ¬ (r.path = [] ∧ r.query = some [] ∧ b.query ≠ [])) :
+    (hdf : r.path ≠ [] ∨ DotFree b.parts) (hcq : CanonQ r.query)
+    (hq : ¬ (r.path = [] ∧ r.query = some [] ∧ queryText b.query ≠ [])) :
     (b.navigate (URL.ofRelRef r)).toRef.canon = (resolve b.toRef r).canon := by
   obtain ⟨segs, hsegs⟩ := hb.rooted
   have hns : ∀ s ∈ segs, NoSlash s := fun s hs => hb.noSlash s (by simp [hsegs, hs])
@@ -69,7 +76,7 @@ theorem navigate_eq_rfc_partial (b : URL) (r : Ref) (hb : AbsBase b) (hr : RelRe
     · exact Or.inl h
     · exact Or.inr ((dotFree_root segs).1 (hsegs ▸ h))
   have hpath := navigate_path_eq_rfc b segs r hr hsegs hns b.toRef (by simp [hbase]) (by simp [hbase]) hdf'
-  have hquery := relQuery_eq_rfc b b.toRef r hr (by simp [hbase]) hq
+  have hquery := relQuery_eq_rfc b b.toRef r hr (by simp [hbase]) hcq hq
   rw [navigate_rel b r hb]
   have hN : (resolvePathParts (relParts b r)) = [] :: process [] (relSegs segs r) := by
     rw [relParts_eq b r segs hsegs, resolvePathParts_root]
@@ -87,46 +94,58 @@ def exBase : URL := URL.ofComponents (some "http".toList) true "u".toList [] "a"
   "/b/c/d;p".toList (some "q".toList) none
 def exRef : Ref := ⟨none, none, ".././/g/.".toList, some "y".toList, some [] ⟩
 
-example : AbsBase exBase ∧ RelRef exRef ∧ (exRef.path ≠ [] ∨ DotFree exBase.parts) ∧
-    ¬ (exRef.path = [] ∧ exRef.query = some [] ∧ exBase.query ≠ []) :=
-  ⟨⟨by decide, ⟨_, rfl⟩, by decide, by decide, by decide⟩, ⟨rfl, rfl⟩, Or.inl (by decide), by decide⟩
+example : AbsBase exBase ∧ RelRef exRef ∧ (exRef.path ≠ [] ∨ DotFree exBase.parts) ∧ CanonQ exRef.query ∧
+    ¬ (exRef.path = [] ∧ exRef.query = some [] ∧ queryText exBase.query ≠ []) :=
+  ⟨⟨by decide, ⟨_, rfl⟩, by decide, by decide, by decide⟩, ⟨rfl, rfl⟩, Or.inl (by decide), by decide, by decide⟩
+
+/-- a base whose query repeats a key, and path-less / query-carrying references with repeated keys -/
+def exBaseMulti : URL := URL.ofComponents (some "http".toList) true [] [] "a".toList false 0
+  "/b/c".toList (some "tag=x&page=2&tag=y".toList) (some "top".toList)
+def exRefFrag : Ref := ⟨none, none, [], none, some "sec".toList⟩
+def exRefMulti : Ref := ⟨none, none, "../g".toList, some "k=&j=0&k&k=2".toList, none⟩
+
+example : AbsBase exBaseMulti ∧ CanonQ exRefFrag.query ∧ CanonQ exRefMulti.query ∧ DotFree exBaseMulti.parts :=
+  ⟨⟨by decide, ⟨_, rfl⟩, by decide, by decide, by decide⟩, by decide, by decide, by decide⟩
+example : (exBaseMulti.navigate (URL.ofRelRef exRefFrag)).toText = "http://a/b/c?tag=x&page=2&tag=y#sec".toList := by
+  decide
+example : (exBaseMulti.navigate (URL.ofRelRef exRefMulti)).toText = "http://a/g?k=&j=0&k&k=2".toList := by decide
 
 example : recompose (resolve exBase.toRef exRef) = "http://u@a:81/b//g/?y#".toList := by
   rw [toRef_rooted exBase _ (by decide) rfl]; decide
 
 /-- the full statement (no restriction on the reference) holds for every base without a query -/
 theorem navigate_eq_rfc_of_base_without_query (b : URL) (r : Ref) (hb : AbsBase b) (hr : RelRef r)
-    (hdf : r.path ≠ [] ∨ DotFree b.parts) (hbq : b.query = []) :
+    (hdf : r.path ≠ [] ∨ DotFree b.parts) (hcq : CanonQ r.query) (hbq : b.query = []) :
     (b.navigate (URL.ofRelRef r)).toRef.canon = (resolve b.toRef r).canon :=
-  navigate_eq_rfc_partial b r hb hr hdf (fun h => h.2.2 hbq)
+  navigate_eq_rfc_partial b r hb hr hdf hcq (fun h => h.2.2 (by rw [hbq]; rfl))
 
 /-- ... and, for every base, for every reference that has a path (path-absolute or path-relative, any
     mix of '.', '..' and empty segments, any query and fragment, base with or without dot segments) -/
 theorem navigate_eq_rfc_of_ref_with_path (b : URL) (r : Ref) (hb : AbsBase b) (hr : RelRef r)
-    (hp : r.path ≠ []) :
+    (hp : r.path ≠ []) (hcq : CanonQ r.query) :
     (b.navigate (URL.ofRelRef r)).toRef.canon = (resolve b.toRef r).canon :=
-  navigate_eq_rfc_partial b r hb hr (Or.inl hp) (fun h => hp h.1)
+  navigate_eq_rfc_partial b r hb hr (Or.inl hp) hcq (fun h => hp h.1)
 
 /-- text-level reading: the rendering of the result and the recomposed RFC target are recompositions
     of components that agree up to empty query / fragment markers -/
 theorem navigate_renders_rfc_target_partial (b : URL) (r : Ref) (hb : AbsBase b) (hr : RelRef r)
-    (hdf : r.path ≠ [] ∨ DotFree b.parts)
-    (hq : ¬ (r.path = [] ∧ r.query = some [] ∧ b.query ≠ [])) :
+    (hdf : r.path ≠ [] ∨ DotFree b.parts) (hcq : CanonQ r.query)
+    (hq : ¬ (r.path = [] ∧ r.query = some [] ∧ queryText b.query ≠ [])) :
     ∃ X Y : Ref, (b.navigate (URL.ofRelRef r)).toText = recompose X ∧
       recompose (resolve b.toRef r) = recompose Y ∧ X.canon = Y.canon :=
-  ⟨_, _, toText_eq_recompose _, rfl, navigate_eq_rfc_partial b r hb hr hdf hq⟩
+  ⟨_, _, toText_eq_recompose _, rfl, navigate_eq_rfc_partial b r hb hr hdf hcq hq⟩
 
 /-- The unrestricted statement is false for the code: `URL('http://a/b?q').navigate('?')` keeps `?q`
     (RFC target: `http://a/b?`, i.e. no query parameters). -/
 theorem navigate_empty_query_defect :
-    ¬ ∀ (b : URL) (r : Ref), AbsBase b → RelRef r → DotFree b.parts →
+    ¬ ∀ (b : URL) (r : Ref), AbsBase b → RelRef r → DotFree b.parts → CanonQ r.query →
       (b.navigate (URL.ofRelRef r)).toRef.canon = (resolve b.toRef r).canon := by
   intro h
   let b : URL := URL.ofComponents (some "http".toList) true [] [] "a".toList false 0 "/b".toList
     (some "q".toList) none
   let r : Ref := ⟨none, none, [], some [], none⟩
   have hb : AbsBase b := ⟨by decide, ⟨_, rfl⟩, by decide, by decide, by decide⟩
-  have := h b r hb ⟨rfl, rfl⟩ (by decide)
+  have := h b r hb ⟨rfl, rfl⟩ (by decide) (by decide)
   rw [navigate_rel b r hb] at this
   have hq := congrArg Ref.query this
   rw [toRef_rooted b _ (by decide) rfl] at hq
@@ -137,6 +156,43 @@ theorem navigate_empty_query_defect :
     prescribes for the same reference without its `?` (this is the known finding's trigger predicate) -/
 theorem empty_query_parses_as_no_query (r : Ref) :
     URL.ofRelRef { r with query := some [] } = URL.ofRelRef { r with query := none } := rfl
+
+/-! ### the query parameters: every item, in order, repeated keys included -/
+
+/-- `parse_qsl` then `QueryParamDict.to_text` reproduce a query text made of `&`-separated non-empty pairs
+    (no `;`) verbatim - whatever the keys, values, repetitions and order - and such a text has no
+    parameters exactly when it is empty -/
+theorem query_text_roundtrip (q : Str) (h : CanonQuery q) :
+    queryText (parseQsl q) = q ∧ (parseQsl q = [] ↔ q = []) :=
+  ⟨queryText_parseQsl q h, fun he => by
+      have := queryText_parseQsl q h
+      rw [he] at this
+      exact this.symm, fun he => by subst he; exact parseQsl_nil⟩
+
+example : CanonQuery "tag=x&page=2&tag=y".toList ∧ CanonQuery "k=&k&=v".toList ∧ ¬ CanonQuery "a=1;b=2".toList ∧
+    ¬ CanonQuery "a=1&&b=2".toList ∧ ¬ CanonQuery "&".toList := by decide
+example : parseQsl "k=&j=0&k&k=2".toList =
+    [("k".toList, some []), ("j".toList, some "0".toList), ("k".toList, none), ("k".toList, some "2".toList)] := by
+  decide
+example : queryText (parseQsl ";a=1;;b=2&&a=3&".toList) = "a=1&b=2&a=3".toList := by decide
+
+/-- `from_parts` hands the items to `update` of the fresh URL's empty `QueryParamDict`: all of them arrive,
+    in order (`update` only removes keys the receiver already had) -/
+theorem from_parts_keeps_all_items (E : QPairs) : omdUpdate [] E = E := omdUpdate_nil E
+
+example : omdUpdate (parseQsl "a=0&b=1&a=2".toList) (parseQsl "a=7&c=8&a=9".toList) =
+    parseQsl "b=1&a=7&c=8&a=9".toList := by decide
+
+/-- The `query_params` of a navigation result are, item for item (order and repeated keys included), those of
+    the reference - or those of the base when the reference has neither a path nor parameters.  Any base, any
+    reference that is not a replacing absolute URL. -/
+theorem navigate_query_items (b dest : URL) (h : ¬ (dest.scheme ≠ [] ∧ dest.host ≠ [])) :
+    (b.navigate dest).query = if dest.pathText = [] ∧ dest.query = [] then b.query else dest.query := by
+  unfold URL.navigate
+  rw [if_neg h]
+  unfold URL.normalize
+  simp only [if_true, omdUpdate_nil]
+  by_cases hp : dest.pathText = [] <;> by_cases hq : dest.query = [] <;> simp [hp, hq]
 
 /-- a reference that has its own scheme and host replaces the base entirely -/
 theorem navigate_absolute_replaces (b dest : URL) (hs : dest.scheme ≠ []) (hh : dest.host ≠ []) :
@@ -244,7 +300,7 @@ theorem resolve_congr (X Y r : Ref) (hr : RelRef r) (h : X.canon = Y.canon) :
     `navigate_empty_query_defect` would otherwise enter at any step). -/
 theorem chained_eq_rfc_partial (rs : List Ref) : ∀ (b : URL) (X : Ref), AbsBase b → DotFree b.parts →
     X.canon = b.toRef.canon →
-    (∀ r ∈ rs, RelRef r ∧ r.query ≠ some []) →
+    (∀ r ∈ rs, RelRef r ∧ r.query ≠ some [] ∧ CanonQ r.query) →
     (b.navigateAll (rs.map URL.ofRelRef)).toRef.canon = (resolveAll X rs).canon := by
   induction rs with
   | nil => intro b X _ _ hX _; simpa [URL.navigateAll, resolveAll] using hX.symm
@@ -252,7 +308,7 @@ theorem chained_eq_rfc_partial (rs : List Ref) : ∀ (b : URL) (X : Ref), AbsBas
     intro b X hb hd hX hrs
     have hr := hrs r (by simp)
     have hc := navigate_closed b r hb
-    have step := navigate_eq_rfc_partial b r hb hr.1 (Or.inr hd) (fun h => hr.2 h.2.1)
+    have step := navigate_eq_rfc_partial b r hb hr.1 (Or.inr hd) hr.2.2 (fun h => hr.2.1 h.2.1)
     have := ih (b.navigate (URL.ofRelRef r)) (resolve X r) hc.1 hc.2
       ((resolve_congr X b.toRef r hr.1 hX).trans step.symm)
       (fun r' hr' => hrs r' (by simp [hr']))
@@ -260,12 +316,12 @@ theorem chained_eq_rfc_partial (rs : List Ref) : ∀ (b : URL) (X : Ref), AbsBas
 
 /-- the chain theorem started at the base itself -/
 theorem chained_from_base_partial (b : URL) (rs : List Ref) (hb : AbsBase b) (hd : DotFree b.parts)
-    (hrs : ∀ r ∈ rs, RelRef r ∧ r.query ≠ some []) :
+    (hrs : ∀ r ∈ rs, RelRef r ∧ r.query ≠ some [] ∧ CanonQ r.query) :
     (b.navigateAll (rs.map URL.ofRelRef)).toRef.canon = (resolveAll b.toRef rs).canon :=
   chained_eq_rfc_partial rs b b.toRef hb hd rfl hrs
 
-example : DotFree exBase.parts ∧ (∀ r ∈ [exRef, ⟨none, none, "..//x".toList, none, none⟩],
-    RelRef r ∧ r.query ≠ some []) := by decide
+example : DotFree exBase.parts ∧ (∀ r ∈ [exRef, ⟨none, none, "..//x".toList, none, none⟩, exRefMulti, exRefFrag],
+    RelRef r ∧ r.query ≠ some [] ∧ CanonQ r.query) := by decide
 
 /-- `normalize()` is idempotent, with or without case normalisation, for every URL object -/
 theorem normalize_idempotent (u : URL) (c : Bool) : (u.normalize c).normalize c = u.normalize c := by
